@@ -1,6 +1,7 @@
 import Rs1090.Driver.Common
 import Rs1090.Model.Dedup
 import Rs1090.Spec.Dedup
+import Rs1090.Model.Decode.Message
 /-!
 `dedup <w> <frames> <arrival>…`
   frames  = comma-separated `<hex>+` (decodable) / `<hex>-` (not decodable); the hex may be empty
@@ -46,12 +47,18 @@ def showRecord (frames : List (Frame × Bool)) (r : Record) : String :=
 def showRecords (frames : List (Frame × Bool)) (rs : List Record) : String :=
   if rs.isEmpty then "-" else ";".intercalate (rs.map (showRecord frames))
 
+/-- the decodability flag of the frame table must be what the decoder model says about the frame
+    (`Message::from_bytes` succeeds): composes the de-duplicator model with the decoder model -/
+def flagsAgree (frames : List (Frame × Bool)) : Bool :=
+  frames.all fun (f, d) => (Rs1090.Model.Message.fromBytes f).isOk == d
+
 def handle : List String → Option String
   | "dedup" :: w :: fs :: arrivals => do
     let w ← w.toNat?
     let frames ← (fs.splitOn ",").mapM parseFrame
     let hist ← arrivals.mapM (parseArrival frames)
     let dec : Frame → Bool := fun f => (frames.lookup f).getD false
+    if !flagsAgree frames then some "decodability-differs" else
     match runChecked w dec init hist with
     | .ok (s, out) =>
       let p := ((pending s).filter (fun a => dec a.frame)).flatMap (·.rx)
